@@ -22,6 +22,15 @@ Answer(pkgs, t, truth(_)) == {x \in pkgs : Eval(t, truth(x))}
 StackAnswer(pkgs, stack, t, truth(_)) == UNION {Answer({x \in pkgs : x.r = r}, t, truth) : r \in stack}
 PairAnswer(pairs, t, truth(_)) == {cp \in pairs : Eval(t, truth(cp))}
 
+\* A repository that is updated through its own API (notify_add_package / notify_remove_package) holds,
+\* at query time, the members that were there or added and not removed since.  A category/package pair
+\* is part of the contents iff at least one member with that name is (a name listed without any
+\* version holds no package).  members: sequence of [c, p, v, r, ..]; absent: set of member indices.
+PairHolds(members, absent, pr) == \E k \in DOMAIN members :
+    k \notin absent /\ members[k].r = pr.r /\ members[k].c = pr.c /\ members[k].p = pr.p
+AfterAdd(absent, k) == absent \ {k}
+AfterRemove(absent, k) == absent \cup {k}
+
 KeyLess(a, b) == \/ a[1] < b[1]
                  \/ a[1] = b[1] /\ a[2] < b[2]
                  \/ a[1] = b[1] /\ a[2] = b[2] /\ a[3] < b[3]
